@@ -9,7 +9,7 @@
 From Coq Require Import List NArith ZArith Bool Sorted Permutation.
 Import ListNotations.
 From SV Require Fmt.CmdSeq Fmt.CmdSeqProofs Fmt.ScenesImage Fmt.ScenesImageProofs Fmt.ScenesImageCfg Fmt.ScenesImageCfgProofs
-  Fmt.SmdTpl Fmt.SmdTplProofs Fmt.SmdWords Fmt.TextFields Fmt.TextFieldsProofs Fmt.SndStacks Fmt.SndStacksProofs Fmt.VmtQuote Fmt.VmtQuoteProofs Fmt.ChoreoBin Fmt.ChoreoBinProofs Fmt.SceneSummary KV.KvBase KV.KvLex KV.KvSym KV.KvLexProofs.
+  Fmt.SmdTpl Fmt.SmdTplProofs Fmt.SmdWords Fmt.TextFields Fmt.TextFieldsProofs Fmt.SndStacks Fmt.SndStacksProofs Fmt.VmtQuote Fmt.VmtQuoteProofs Fmt.TextLines Fmt.TextLinesProofs Fmt.ChoreoBin Fmt.ChoreoBinProofs Fmt.SceneSummary KV.KvBase KV.KvLex KV.KvSym KV.KvLexProofs.
 
 (** * Command sequences *)
 Module CS := Fmt.CmdSeq.
@@ -339,6 +339,26 @@ Theorem c20_vmt_shader_with_space_refuted :
   VQP.shader_ok [97; 32; 98]%N = false
   /\ fst (KvLex.lex_all TFP.ex_escfg (VQ.vmt_file VQP.ref_nq [97; 32; 98]%N [])) <> VQ.vmt_tokens [97; 32; 98]%N [].
 Proof. exact VQP.shader_with_space_refuted. Qed.
+
+(** * Whole written lines (TL := Fmt.TextLines): what one `file.write(template)` of a text writer produces, as a list of
+    self-delimiting items regenerated from the source (today: every template of sndscript.Sound.export, `snd_lines`; the check
+    discharges [items_ok] for each of them and that none is unstructured).  For every escape table with [esc_ok], every
+    structured line, every line number and ALL field values within [vals_ok] (one value per field; a raw quoted field without
+    quote / backslash / line break, a bare field a bare word, an escaped quoted field anything): the tokenizer model reads the
+    written text back as exactly the keywords, braces, newlines and field values, in order *)
+Module TL := Fmt.TextLines.
+Module TLP := Fmt.TextLinesProofs.
+Theorem c20_text_line_reads_back : forall E, KvSym.esc_ok E = true -> forall its, TL.items_ok its = true ->
+  forall vs l, TL.vals_ok its vs = true ->
+  KvLexProofs.lexes E l (TL.render E its vs) (TL.toks its vs) (TL.lines its l).
+Proof. exact TLP.items_lex. Qed.
+Theorem c20_text_lines_of_a_writer_read_back : forall E ls, KvSym.esc_ok E = true -> forallb TL.items_ok ls = true ->
+  forall its vs l, In its ls -> TL.vals_ok its vs = true ->
+  KvLexProofs.lexes E l (TL.render E its vs) (TL.toks its vs) (TL.lines its l).
+Proof. exact TLP.lines_lex. Qed.
+(** the unquoted low/high pair `95, 110` (the repaired soundscript defect) is not a bare word: as a bare field it is outside [vals_ok] *)
+Theorem c20_text_bare_pair_is_not_a_word_refuted : TL.word_ok [57; 53; 44; 32; 49; 49; 48]%N = false.
+Proof. exact TLP.bare_pair_not_a_word. Qed.
 
 (** * Binary choreo scenes (BVCD), at the level of raw field values (float32 as bit pattern, quantised values as the
     byte written, strings as pool indexes).  Fmt/ChoreoBin.v describes each class by a layout; the check discharges,
